@@ -348,11 +348,11 @@ func doX(r row) {
 	// the text form of the result must parse back to an equal NodeID (index form)
 	back, err := ua.ParseNodeID(x.String())
 	if err != nil || !back.Equal(x.NodeID) {
-		if strings.Contains(x.String(), ";") && x.NodeID.Namespace() == 0 && x.NodeID.Type() == ua.NodeIDTypeString {
+		if err != nil && strings.Contains(x.String(), ";") && x.NodeID.Namespace() == 0 && x.NodeID.Type() == ua.NodeIDTypeString {
 			vfgo.Violation(r, cls, "string-id-with-semicolon-in-ns0-does-not-parse", fmt.Sprintf("%q: %v", x.String(), err))
 			return
 		}
-		vfgo.Violation(r, cls, "expanded-text-roundtrip", fmt.Sprintf("ParseNodeID(%q): %v", x.String(), err))
+		vfgo.Violation(r, cls, "expanded-text-roundtrip", fmt.Sprintf("ParseNodeID(%q): err=%v, Equal to the resolved node id: %v", x.String(), err, err == nil && back.Equal(x.NodeID)))
 		return
 	}
 	vfgo.OK(r, cls, x.String())
